@@ -247,6 +247,19 @@ Theorem c14_bounded_reply : forall lim chunk etext rh name rb wok opid,
 Proof. exact bounded_reply. Qed.
 Print Assumptions c14_bounded_reply.
 
+(** in short, for a result that can be written: the output is the normal reply iff it fits, and whatever else
+    is left is RESPONSE_TOO_LARGE exactly when it does not *)
+Theorem c14_bounded_reply_iff_fits : forall lim chunk etext rh name rb opid,
+  chunk_ok chunk ->
+  plan_wf opid (PReply rh name rb true) -> plan_small etext (PReply rh name rb true) ->
+  let out := bo_data (snd (run_plan lim chunk true etext (PReply rh name rb true))) in
+  let normal := msg_bytes rh name mt_reply rb in
+  (classify_reply out = Some (opid, None) <-> fits lim (zlen normal) = true) /\
+  (out = normal <-> fits lim (zlen normal) = true) /\
+  (out <> [] -> (classify_reply out = Some (opid, Some ex_response_too_large) <-> fits lim (zlen normal) = false)).
+Proof. exact bounded_reply_iff. Qed.
+Print Assumptions c14_bounded_reply_iff_fits.
+
 (** ** SendError (undecodable arguments, TApplicationException, other handler error): the kind never
     changes; the exception goes out with all response headers if that fits, else with the op id only if that
     fits, else nothing is left. *)
